@@ -13,9 +13,6 @@ Record C08_case := {
   c8_rows : list C08_obs_row;              (* per version row: index / next / previous     *)
   c8_exc  : bool }.                        (* the code raised                               *)
 
-Definition find_row (t : vtable) (k : pk) (tx : Z) : option vrow :=
-  find (fun r => same_key k r && (vtx r =? tx)) t.
-
 Definition otx (o : option vrow) : option Z := option_map vtx o.
 
 Definition C08_corr (c : C08_case) : bool :=
